@@ -435,7 +435,11 @@ class Log():
 
         self.cf = crazyflie
         self.toc = None
+        # True from refresh_toc() until the reply to its reset request has
+        # started the TOC download (or the link is gone)
+        self._toc_refresh_pending = False
         self.cf.add_port_callback(CRTPPort.LOGGING, self._new_packet_cb)
+        self.cf.disconnected.add_callback(self._disconnected)
 
         self.toc_updated = Caller()
         self.state = IDLE
@@ -529,8 +533,14 @@ class Log():
         self._toc_cache = toc_cache
         self._refresh_callback = refresh_done_callback
         self.toc = None
+        self._toc_refresh_pending = True
 
         self._send_reset_packet()
+
+    def _disconnected(self, link_uri):
+        """The link was closed or lost: a reply to the reset request of this
+        connection attempt that arrives later must not start a download"""
+        self._toc_refresh_pending = False
 
     def _send_reset_packet(self):
         pk = CRTPPacket()
@@ -614,8 +624,11 @@ class Log():
                         block.added = False
 
             if (cmd == CMD_RESET_LOGGING):
-                # Guard against multiple responses due to re-sending
-                if not self.toc:
+                # Guard against multiple responses due to re-sending and
+                # against a response that is left over from an earlier
+                # connection attempt
+                if not self.toc and self._toc_refresh_pending:
+                    self._toc_refresh_pending = False
                     logger.debug('Logging reset, continue with TOC download')
                     # The reset removed all blocks in the Crazyflie, the
                     # configurations of a previous session are not added or
